@@ -24,6 +24,7 @@ mod c11;
 mod c12;
 mod c13;
 mod c14;
+mod c15;
 mod c16;
 mod c17;
 mod c18;
@@ -107,6 +108,11 @@ const PROPS: &[PropDef] = &[PropDef {
     level: "exploration",
     run: c14::run,
     replay: c14::replay,
+}, PropDef {
+    id: "C15",
+    level: "exploration",
+    run: c15::run,
+    replay: c15::replay,
 }, PropDef {
     id: "C16",
     level: "exploration",
